@@ -323,6 +323,10 @@ class Engine:
             if z3.is_true(c) or self.feasible(c):
                 feas.append(i)
         if not feas:
+            # no alternative is satisfiable: the path condition itself has become contradictory (an assumed contract
+            # clause / invariant excludes this path).  Recorded so that such cuts can be audited (units.UnitResult.dead_ends)
+            node = getattr(self, 'cur_node', None)
+            self.stats.setdefault('dead_ends', []).append((self.path_id, getattr(node, 'lineno', None)))
             raise PathEnd()
         for j in feas[1:]:
             st.alts.append(st.decisions[:st.pos] + [j])
@@ -1258,6 +1262,7 @@ class Engine:
 
     def exec_stmt(self, s, fr):
         self.cur_frame = fr
+        self.cur_node = s
         m = getattr(self, 's_' + type(s).__name__, None)
         if m is None:
             raise Unsupported('statement %s' % type(s).__name__)
